@@ -798,5 +798,36 @@ def c14_6(ctx: Ctx) -> RuleResult:
             wit,
             construct=f"except {ast.unparse(h.type) if h.type else ''} in {short}",
         )
+    # a `raise` / `return` / `break` inside a finally clause replaces whatever exception
+    # is in flight (including a user abort): package-wide there must be none
+    n_fin = 0
+    for f in ctx.repo.all_funcs():
+        for t in nodes_in(f, ast.Try):
+            if not t.finalbody:
+                continue
+            n_fin += 1
+            bad = [x for s_ in t.finalbody for x in ast.walk(s_) if isinstance(x, (ast.Raise, ast.Return, ast.Break, ast.Continue))]
+            ok = not bad
+            res.add(f, bad[0] if bad else t, "the finally clause does not raise / return / break (it cannot replace an exception in flight)", ok,
+                    "" if ok else f"`{norm_stmt(bad[0])[:70]}` inside `finally` replaces an exception that is propagating (e.g. the user's abort or an evaluator error) with another outcome",
+                    construct=f"{f.name}: finally clause")
+    res.notes.append(f"{n_fin} finally clauses inspected")
     res.floor = 2
+    return res
+
+
+# --------------------------------------------------------------------- C14.7
+@rule(P)
+def c14_7(ctx: Ctx) -> RuleResult:
+    """TOO_FEW_REALIZATIONS exactly when a filter leaves no positive weight: failed
+    realizations are never selected, and the positive-weight guard dominates every
+    return of the filter (shared with C04.4 / C04.6)."""
+    from .c04 import c04_4, c04_6
+
+    res = RuleResult("C14.7", "DOM", "filters report TOO_FEW_REALIZATIONS when failures leave no positively weighted realization (failed ones are never selected; guard before every return)")
+    for sub in (c04_4, c04_6):
+        for i in sub(ctx).instances:
+            i.rule = "C14.7"
+            res.instances.append(i)
+    res.floor = 4
     return res
